@@ -250,9 +250,9 @@ Lemma in_streams_cases role x : In x (role_input_streams role) ->
   (role = 1 /\ x = 5) \/ (role = 3 /\ x = 5) \/ (role = 3 /\ x = 8).
 Proof.
   destruct (role_cases role) as [->|[->|[->|[E _]]]].
-  - cbn. intros [<-|[]]. auto.
-  - cbn. intros [].
-  - cbn. intros [<-|[<-|[]]]; auto.
+  - change (role_input_streams 1) with [5]. intros [<-|[]]. auto.
+  - change (role_input_streams 2) with (@nil N). intros [].
+  - change (role_input_streams 3) with [5; 8]. intros [<-|[<-|[]]]; auto.
   - rewrite E. intros [].
 Qed.
 
@@ -1784,3 +1784,105 @@ Proof.
   destruct O as [[->|[-> NU]]|[_ ->]]; [left; reflexivity|right; left; split; [reflexivity|exact NU]|right; right; reflexivity].
 Qed.
 End ConnTotal.
+
+(* the invariant is established by into_stream_parser of a finished request parser (Token::parse_request) *)
+Lemma into_stream_parser_rgood rp rq : parser_ok rp -> st rp = Done rq ->
+  exists p0, into_stream_parser rp = inl p0 /\ pgood p0 /\ stream_buffer p0 = [] /\ raw_bytes p0 = held rp /\
+             sreq p0 = rq /\ stream p0 = next_input_stream (r_role rq) None /\
+             rgood (mkR p0 (len (role_input_streams (r_role rq)) <=? 1) false).
+Proof.
+  intros (Q1 & Q2 & Q3 & Q4 & Q5) Est.
+  destruct (into_stream_parser_init rp rq Est Q4) as (p0 & E0 & R0 & A0). exists p0. split; [exact E0|].
+  pose proof (f_equal a_parsed A0) as X1. pose proof (f_equal a_raw A0) as X2. pose proof (f_equal a_B A0) as X3.
+  pose proof (f_equal a_req A0) as X4. pose proof (f_equal a_stream A0) as X5.
+  cbn [abs a_parsed a_raw a_B a_req a_stream] in X1, X2, X3, X4, X5.
+  assert (G : pgood p0).
+  { split; [exact R0|]. split; [|split; [rewrite X2; exact Q3|rewrite X3; exact Q5]].
+    unfold stream_ok. rewrite X5. destruct (next_input_stream (r_role rq) None) as [e|] eqn:En; [|exact I].
+    eapply next_is_input. exact En. }
+  split; [exact G|]. split; [exact X1|]. split; [exact X2|]. split; [exact X4|]. split; [exact X5|].
+  split; [exact G|]. unfold wr_inv. cbn [rsp rwriteable]. rewrite X4, X5. apply wr_inv_init.
+Qed.
+
+(* the halting outcomes allowed by the lemmas above exclude every panic site and the model's fuel *)
+Lemma okhalt_no_panic w o : okhalt w o -> o <> OFuel /\ forall n, o <> OPanic n.
+Proof. intros [->|[-> _]]; split; try discriminate; intros n; discriminate. Qed.
+
+Lemma okhalt70_no_panic w o : okhalt70 true w o -> o <> OFuel /\ forall n, o <> OPanic n.
+Proof. intros [H|[H _]]; [exact (okhalt_no_panic w o H)|discriminate H]. Qed.
+
+(* ---- the hypotheses are satisfiable: a KeepConn client sending the same Responder request twice, a handler
+   that reads 2 bytes, reads to the end, waits for writeable, writes 2 bytes on stdout and exits; read script with
+   short reads, spurious wake-ups and an error; write script with a wake-up, a 1-byte write and a zero write ---- *)
+Definition ex_request (role : N) : bytes :=
+  [1; 1; 0; 1; 0; 8; 0; 0;  0; role; 1; 0; 0; 0; 0; 0] ++ [1; 4; 0; 1; 0; 0; 0; 0] ++
+  [1; 5; 0; 1; 0; 3; 5; 0; 97; 98; 99; 0; 0; 0; 0; 0] ++ [1; 5; 0; 1; 0; 0; 0; 0].
+Definition ex_world (role ge : N) (rs ws : list N) : world :=
+  mkW rs ws [(ge, 0, ex_request role ++ ex_request role)] [] 0 1 0 false false [].
+Definition ex_script : list N := [1; 2; 2; 5; 6; 6; 2; 104; 105; 8; 0; 0].
+
+Example ex_script_ok : scripts_ok true [ex_script].
+Proof.
+  constructor; [|constructor]. intros role. unfold ex_script.
+  apply SO_read. apply SO_read_all. apply SO_writeable. apply SO_write.
+  change (drop 2 [104; 105; 8; 0; 0]) with [8; 0; 0]. apply SO_exit. left. reflexivity.
+Qed.
+
+Example ex_world_ok role ge rs ws : role < 256 -> world_ok (ex_world role ge rs ws).
+Proof.
+  intros H. constructor; [|constructor]. cbn [snd]. unfold ex_request.
+  repeat (apply bytes_ok_app; split); repeat (constructor; [unfold byte_ok; lia|]); constructor.
+Qed.
+
+Example ex_terminates :
+  exists w, run_loop (fun b => b) 10 (nb (ex_world 1 0 [3; 0; 5; R_ERR] [0; 1; W_ZERO]) + 4) (new_parser 0) [ex_script] 0
+                     (ex_world 1 0 [3; 0; 5; R_ERR] [0; 1; W_ZERO]) = (ORet, w).
+Proof.
+  apply run_loop_terminates.
+  - apply ex_world_ok. lia.
+  - exact ex_script_ok.
+  - reflexivity.
+  - constructor; [reflexivity|constructor].
+Qed.
+
+(* ---- the hypotheses are needed (evaluated in the model) ---- *)
+(* a gated client that waits for a reply which the server does not owe: the task suspends *)
+Example ex_deadlock :
+  fst (run_loop (fun b => b) 10 (nb (ex_world 1 1 [] []) + 4) (new_parser 0) [ex_script] 0 (ex_world 1 1 [] [])) = ODeadlock.
+Proof. vm_compute. reflexivity. Qed.
+(* an exit status outside ExitStatus (impossible in Rust): make_request_epilogue has no value *)
+Example ex_bad_exit :
+  fst (run_loop (fun b => b) 10 (nb (ex_world 1 0 [] []) + 4) (new_parser 0) [[8; 1; 0]] 0 (ex_world 1 0 [] [])) = OPanic 61.
+Proof. vm_compute. reflexivity. Qed.
+(* a handler that unwraps set_stream(Data) in a Responder request: its own panic; fine for a Filter *)
+Example ex_bad_set_stream :
+  fst (run_loop (fun b => b) 10 (nb (ex_world 1 0 [] []) + 4) (new_parser 0) [[4; 8; 8; 0; 0]] 0 (ex_world 1 0 [] [])) = OPanic 70 /\
+  fst (run_loop (fun b => b) 10 (nb (ex_world 3 0 [] []) + 4) (new_parser 0) [[4; 8; 8; 0; 0]] 0 (ex_world 3 0 [] [])) = ORet.
+Proof. split; vm_compute; reflexivity. Qed.
+(* an ill-formed script *)
+Example ex_bad_opcode :
+  fst (run_loop (fun b => b) 10 (nb (ex_world 1 0 [] []) + 4) (new_parser 0) [[10]] 0 (ex_world 1 0 [] [])) = OPanic 71.
+Proof. vm_compute. reflexivity. Qed.
+
+Print Assumptions sparse_facts.
+Print Assumptions into_stream_parser_rgood.
+Print Assumptions await_read_ok.
+Print Assumptions await_write_all_ok.
+Print Assumptions poll_output_ok.
+Print Assumptions input_loop_ok.
+Print Assumptions poll_input_ok.
+Print Assumptions await_input_ok.
+Print Assumptions do_writeable_ok.
+Print Assumptions boundary_loop_ok.
+Print Assumptions record_boundary_ok.
+Print Assumptions close_tail_ok.
+Print Assumptions do_close_ok.
+Print Assumptions write_slices_ok.
+Print Assumptions writer_write_all_ok.
+Print Assumptions read_all_ok.
+Print Assumptions run_handler_ok.
+Print Assumptions parse_request_ok.
+Print Assumptions run_loop_ok.
+Print Assumptions run_loop_total.
+Print Assumptions run_loop_terminates.
+Print Assumptions run_loop_total_lax.
